@@ -1778,7 +1778,8 @@ SWEEP_HOSTS = ['[::1]:8080', '[::1]', '[2001:db8::17]:80', '[2001:db8::17]:443',
                'localhost:8080', 'h:', ':80', ':', '::', 'h:80:80', '[::1', '::1]', 'h:-1', 'h: 80', ' h', 'h ', '', 'H.EXAMPLE',
                'xn--nxasmq6b.example', '1.2.3.4:65536', 'h' * 300, 'a..b', '.', 'h:80:', 'h::80', 'user@h:80', 'h/p:80', 'h,h2:80']
 SWEEP_HEADERS = {'Host': SWEEP_HOSTS, 'X-Forwarded-Host': SWEEP_HOSTS,
-                 'X-Forwarded-Proto': ['', 'https', 'http', 'a:b', ':', 'https,http', 'HTTPS ', 'ws'],
+                 'X-Forwarded-Proto': ['', 'https', 'http', 'a:b', ':', 'https,http', 'HTTPS ', 'ws', 'javascript:{m}', 'javascript',
+                                       'data:text/html,{m}', '{m}'],
                  'X-Script-Name': ['', '/', '//', 'a', '/a:b', '/a/', '/a//b', '/a?b', '/a#b', '/%41', '/a b']}
 SWEEP_PATHS = [('app', 'root', '/', ''), ('app', 'empty_path', '', ''),
                ('wms', 'capabilities_1.1.1', '/service', 'SERVICE=WMS&VERSION=1.1.1&REQUEST=GetCapabilities'),
@@ -1799,12 +1800,17 @@ def sweep_items():
                     if extra and hname != 'Host':
                         continue
                     n += 1
+                    marker = None
+                    if '{m}' in v:
+                        # a value that carries a marker: where it lands in the document is judged as for every other input
+                        marker = 'zq81%04dx' % n
+                        v = v.replace('{m}', marker)
                     req = {'m': 'GET', 'path': path, 'h': {hname: v}, 'qs': q}
                     req.update(extra)
                     twin = {'m': 'GET', 'path': path, 'h': {hname: 'h.example' if 'Host' in hname else ('http' if 'Proto' in hname else '/a')},
                             'qs': q}
                     twin.update(extra)
-                    out.append({'scn': 'A', 'svc': svc, 'op': op, 'mut': 'header', 'param': hname, 'marker': None, 'payload': v,
+                    out.append({'scn': 'A', 'svc': svc, 'op': op, 'mut': 'header', 'param': hname, 'marker': marker, 'payload': v,
                                 'req': req, 'twin': twin})
     return out
 
